@@ -17,6 +17,7 @@ from __future__ import annotations
 
 import ast
 import copy
+import textwrap
 from dataclasses import dataclass, field
 
 from .core import AnalysisError, Program
@@ -76,7 +77,8 @@ def apply_variant(prog: Program, v: Variant):
         node, parent = _find(tree, v.func)
         if node is None:
             return None
-        text = ast.unparse(node)
+        pad = " " * (4 * (len(v.func.split(".")) - 1))
+        text = textwrap.indent(ast.unparse(node), pad)
     else:
         text = ast.unparse(tree)
     if v.old not in text:
@@ -91,7 +93,7 @@ def apply_variant(prog: Program, v: Variant):
                 return None
         new_text = text[:idx] + v.new + text[idx + len(v.old):]
     try:
-        new_ast = ast.parse(new_text)
+        new_ast = ast.parse(textwrap.dedent(new_text) if v.func else new_text)
     except SyntaxError as e:
         raise AnalysisError(f"variant {v.name} does not parse: {e}")
     if v.func:
@@ -168,8 +170,15 @@ def self_validate(prog: Program, pid: str, base: Collector, errors: list[str]) -
             else:
                 failures.append(f"benign twin '{v.name}' raised {[f.rule + ':' + f.message[:80] for f in new]} undecided={[u['message'][:80] for u in new_und]} errors={errs[:1]}")
                 results.append({"variant": v.name, "kind": "twin", "status": "ALARM"})
+    import os
+    if os.environ.get("ICGSA_STRICT_SKIP") == "1":
+        for r in results:
+            if r["status"].startswith("skipped"):
+                failures.append(f"variant '{r['variant']}' skipped: anchor not found")
     for f in failures:
         errors.append("self-validation: " + f)
+    print(f"[{pid}] self-validation: {detected}/{sum(1 for v in mine if v.kind == 'break')} breaking variants detected, "
+          f"{silent}/{sum(1 for v in mine if v.kind == 'twin')} benign twins silent, {skipped} skipped (anchor absent)")
     nb = sum(1 for v in mine if v.kind == "break")
     nt = sum(1 for v in mine if v.kind == "twin")
     return {
